@@ -3,6 +3,7 @@ module verif/harness
 go 1.20
 
 require (
+	sigs.k8s.io/yaml v1.4.0
 	tags.cncf.io/container-device-interface v1.0.1
 	tags.cncf.io/container-device-interface/schema v0.0.0
 	tags.cncf.io/container-device-interface/specs-go v1.0.0
@@ -19,7 +20,6 @@ require (
 	golang.org/x/mod v0.19.0 // indirect
 	golang.org/x/sys v0.19.0 // indirect
 	gopkg.in/yaml.v3 v3.0.1 // indirect
-	sigs.k8s.io/yaml v1.4.0 // indirect
 )
 
 replace (
